@@ -118,7 +118,13 @@ typedef enum {
 #define GET_NTH(spec)	((spec) >> 8U)
 #define GET_WDAY(spec)	((spec) & 0xfU)
 
+#if defined ECHSE_VERIF && defined ECHSE_VERIF_CCH
+/* verification hook: a smaller occurrence cache lets bounded checkers
+ * cross refill boundaries, all users are symbolic in GRP_CCH_OFF */
+# define GRP_CCH_OFF	ECHSE_VERIF_CCH
+#else
 #define GRP_CCH_OFF	64U
+#endif
 
 struct rrulsp_s {
 	echs_freq_t freq;
